@@ -222,9 +222,17 @@ def _op(pkg, name):
     return pkg.functions.opcodes_inverse[name][0]
 
 
+def _xb(b):
+    """'BIG:<n>' stands for a body that pushes n zero bytes (block lengths on both sides of 2^15 / up to 2^16 - 1)"""
+    if isinstance(b, str) and b.startswith('BIG:'):
+        return 'push x' + '00' * int(b[4:])
+    return b
+
+
 def build(c, pkg, kind, op, size=None, body=None, body2=None):
     """bytes of one instruction with exact-size operands"""
     P = pkg.parsing
+    body, body2 = _xb(body), _xb(body2)
     code = bytes([_op(pkg, op)])
     if kind == 'noarg':
         return code
@@ -306,13 +314,13 @@ def _real_build(inputs, params):
     elif kind == 'fixed':
         d = code + inputs['operand']
     elif kind in ('if', 'loop'):
-        b = cs(params['body'])
+        b = cs(_xb(params['body']))
         d = code + len(b).to_bytes(2, 'big') + b
     elif kind in ('if_else', 'try'):
-        b1, b2 = cs(params['body']), cs(params['body2'])
+        b1, b2 = cs(_xb(params['body'])), cs(_xb(params['body2']))
         d = code + len(b1).to_bytes(2, 'big') + b1 + len(b2).to_bytes(2, 'big') + b2
     else:
-        b = cs(params['body'])
+        b = cs(_xb(params['body']))
         d = code + inputs['handle'] + len(b).to_bytes(2, 'big') + b
     pre = b'\x01' if kind != 'noarg' else b''
     return pre + d + b'\x00'
@@ -371,6 +379,15 @@ def _p_rt(tier):
         for b2 in bodies[:4]:
             out.append({'kind': 'if_else', 'op': 'OP_IF_ELSE', 'body': b1, 'body2': b2})
             out.append({'kind': 'try', 'op': 'OP_TRY_EXCEPT', 'body': b1, 'body2': b2})
+    # block lengths 32767, 32768 and 65535 in every length field (the body is PUSH2 + 2 length bytes + n zero bytes)
+    for n in (32764, 32765, 65532):
+        big = f'BIG:{n}'
+        out.append({'kind': 'if', 'op': 'OP_IF', 'body': big})
+        out.append({'kind': 'loop', 'op': 'OP_LOOP', 'body': big})
+        out.append({'kind': 'def', 'op': 'OP_DEF', 'body': big})
+        for kind, op in (('if_else', 'OP_IF_ELSE'), ('try', 'OP_TRY_EXCEPT')):
+            out.append({'kind': kind, 'op': op, 'body': big, 'body2': 'true'})
+            out.append({'kind': kind, 'op': op, 'body': 'true', 'body2': big})
     return out
 
 
